@@ -191,7 +191,9 @@ class DeferredDomain(ObjectDomain):
     def _dfr_method(self, interp, dv, name, call, st, fr):
         out = []
         exprs = [a.value if isinstance(a, ast.Starred) else a for a in call.args] + [k.value for k in call.keywords]
-        for r in interp.eval_list(exprs, st, fr):
+        extra = name in ("addCallback", "addErrback", "addBoth")   # their further arguments are kept and handed to the callback later: the caller's own objects
+        share = [extra and i_ >= 1 and not isinstance(a, ast.Starred) for i_, a in enumerate(call.args)] + [extra and k.arg is not None for k in call.keywords]
+        for r in interp.eval_list(exprs, st, fr, share=share):
             if r.kind == "exc":
                 out.append(r)
                 continue
